@@ -432,8 +432,11 @@ pub fn run_c15(ctx: &Ctx) -> Report {
     let mut subs = Vec::new();
     c15_for::<ControlChange14BitMessageScanner>(ctx, &mut subs);
     c15_for::<ParameterNumberMessageScanner>(ctx, &mut subs);
+    // (state equality / Debug keys of the polling scanner are only meaningful with the mock clock)
     #[cfg(feature = "hm_std")]
-    c15_for::<helgoboss_midi::PollingParameterNumberMessageScanner>(ctx, &mut subs);
+    if HAVE_CLOCK {
+        c15_for::<helgoboss_midi::PollingParameterNumberMessageScanner>(ctx, &mut subs);
+    }
     Report {
         subs,
         rule: "projection oracle (differential, no model): outputs of each channel's calls in an interleaved stream equal those of a scanner fed only that channel (plus all resets and time steps); system messages report nothing and leave the scanner == its copy; every report carries the triggering channel".into(),
@@ -746,8 +749,11 @@ pub fn run_c16(ctx: &Ctx) -> Report {
     }
     c16_for::<ControlChange14BitMessageScanner>(ctx, &mut subs);
     c16_for::<ParameterNumberMessageScanner>(ctx, &mut subs);
+    // (state equality / Debug keys of the polling scanner are only meaningful with the mock clock)
     #[cfg(feature = "hm_std")]
-    c16_for::<helgoboss_midi::PollingParameterNumberMessageScanner>(ctx, &mut subs);
+    if HAVE_CLOCK {
+        c16_for::<helgoboss_midi::PollingParameterNumberMessageScanner>(ctx, &mut subs);
+    }
     Report {
         subs,
         rule: "literal sets for the predicates; every (reachable pool state x non-contributing message) pair must report nothing and leave the scanner == its copy; converse: every accepted controller matters in some state; metamorphic insertion of non-contributing messages into random histories".into(),
@@ -911,8 +917,11 @@ pub fn run_c17(ctx: &Ctx) -> Report {
     let mut subs = Vec::new();
     c17_for::<ControlChange14BitMessageScanner>(ctx, &mut subs);
     c17_for::<ParameterNumberMessageScanner>(ctx, &mut subs);
+    // (state equality / Debug keys of the polling scanner are only meaningful with the mock clock)
     #[cfg(feature = "hm_std")]
-    c17_for::<helgoboss_midi::PollingParameterNumberMessageScanner>(ctx, &mut subs);
+    if HAVE_CLOCK {
+        c17_for::<helgoboss_midi::PollingParameterNumberMessageScanner>(ctx, &mut subs);
+    }
     Report {
         subs,
         rule: "differential: reset scanner vs new scanner (same timeout) compared with == and on random / abstract continuations; copy vs original on random suffixes; new() vs default()".into(),
